@@ -1,7 +1,8 @@
 (* C03 — UDP tunnels preserve datagram payloads, boundaries and reply addressing.
    Only statements here; proofs live in Proofs/.  Every theorem is followed by Print Assumptions. *)
 From FRP Require Import Model.Base64 Model.Udp Model.UdpSched Proofs.Base64Proofs Proofs.UdpProofs Proofs.UdpFwdProofs
-  Proofs.UdpSchedProofs Model.UdpSrvPump Proofs.UdpSrvPumpProofs Proofs.RegistryCheck.
+  Proofs.UdpSchedProofs Model.UdpSrvPump Proofs.UdpSrvPumpProofs Model.UdpLoops Proofs.UdpLoopsProofs
+  gen.GenC03Udp Proofs.RegistryCheck.
 Open Scope Z_scope.
 
 Definition today_registry := registry type_consts type_map.
@@ -191,6 +192,72 @@ Proof.
 Qed.
 Print Assumptions C03_order_preserved_within_connection.
 
+(** * the reply goroutine and the alphabet of the work connection *)
+
+(* reflective over today's source (translator unit c03udp): the reply goroutine of ForwardUserConn
+   `for udpMsg := range readCh` exists, contains exactly one WriteToUDP and NO statement that leaves the
+   loop (return / break / goto / panic): a WriteToUDP error cannot end the only consumer of readCh; and the only
+   functions called in the body are GetContent (decodes a Content of any length into a fresh slice, as
+   [get_content] does — no fixed-size buffer a long reply could overrun) and udpConn.WriteToUDP *)
+Theorem C03_reply_loop_has_no_exit :
+  gen_c03_unknown = false /\ gen_c03_reply_loop_found = true /\ gen_c03_reply_loop_exits = [] /\
+  gen_c03_reply_loop_calls = ["GetContent"; "udpConn.WriteToUDP"]%string.
+Proof. vm_compute. repeat split. Qed.
+Print Assumptions C03_reply_loop_has_no_exit.
+
+(* such a loop attempts every reply; the fate of a reply depends on its own destination only: a reply the
+   OS refuses to send (user address with port 0, EPERM, ENETUNREACH ...) never stops replies to others *)
+Theorem C03_failed_reply_does_not_stop_replies : forall (l : list (Z * bool)) a,
+  rl_run (negb (match gen_c03_reply_loop_exits with [] => true | _ => false end)) true l =
+    map (fun x : Z * bool => if snd x then RLDelivered (fst x) else RLFailed (fst x)) l /\
+  (In (a, true) l -> In (RLDelivered a) (rl_run false true l)).
+Proof.
+  intros l a. split; [exact (rl_survives l)|apply rl_failed_reply_does_not_stop_others].
+Qed.
+Print Assumptions C03_failed_reply_does_not_stop_replies.
+
+(* ... whereas a loop that returns on the error is refuted; and in the tunnel model the reply step has
+   no state of its own: whatever happened before, the head of readCh is consumed and, if the OS accepts
+   its destination, written to its user *)
+Theorem C03_reply_loop_exit_refuted :
+  rl_run true true [(1, true); (2, false); (1, true); (3, true)] = [RLDelivered 1; RLFailed 2; RLStuck 1; RLStuck 3].
+Proof. exact rl_exits_witness. Qed.
+Print Assumptions C03_reply_loop_exit_refuted.
+
+Theorem C03_reply_step_total : forall c st p q d a,
+  s_readq st = p :: q -> get_content p = Some d -> up_raddr p = Some a ->
+  snd (ustep c st (ESrvDeliver true)) = [OUser a d] /\ s_readq (fst (ustep c st (ESrvDeliver true))) = q /\
+  s_readq (fst (ustep c st (ESrvDeliver false))) = q.
+Proof. exact srv_deliver_total. Qed.
+Print Assumptions C03_reply_step_total.
+
+(* alphabet, reflective over today's source: everything frps (server/proxy/udp.go) and the sudp visitor's
+   worker pass to msg.WriteMsg on the work connection is a variable received from a chan *msg.UDPPacket;
+   the client readers decode type-blind (ReadMsgInto) *)
+Theorem C03_work_connection_alphabet :
+  writes_only_packets gen_c03_srv_udp_writes gen_c03_srv_sendch_elem = true /\
+  writes_only_packets gen_c03_visitor_writes "*msg.UDPPacket" = true /\
+  gen_c03_cli_udp_reader = "ReadMsgInto"%string /\ gen_c03_cli_sudp_reader = "ReadMsgInto"%string.
+Proof. vm_compute. repeat split. Qed.
+Print Assumptions C03_work_connection_alphabet.
+
+(* with packets only on the wire the type-blind reader hands the Forwarder exactly the packets written
+   (so the tunnel model, whose wire carries packets, is exact and C03_delivered_is_sent applies) ... *)
+Theorem C03_blind_reader_exact_on_packets : forall ms,
+  forallb is_wpacket ms = true ->
+  map cli_blind_read ms = flat_map (fun m => match m with WPacket p => [p] | _ => [] end) ms.
+Proof. exact blind_read_exact. Qed.
+Print Assumptions C03_blind_reader_exact_on_packets.
+
+(* ... and any other message refutes "every datagram handed to the backend was sent by a user": a Pong
+   becomes the zero packet, the Forwarder opens a socket for the user <nil> and writes an EMPTY datagram
+   to the backend; no user datagram has a nil address *)
+Theorem C03_non_packet_on_work_connection_refuted :
+  snd (ustep {| uc_buf := 1500 |} pong_state (ECliPump true)) = [OSockNew 0 None; OBackend 0 None []] /\
+  (forall c h v, In v (usent c h) -> exists a d, v = (Some a, Some d)).
+Proof. split; [exact pong_injects_datagram|exact usent_has_address]. Qed.
+Print Assumptions C03_non_packet_on_work_connection_refuted.
+
 (* reply addressing.  (1) the socket map is injective on live entries; (2) a reply read on socket
    s is tagged with the address whose first datagram created s; (3) a socket is created once, so
    that address is unique; (4) every datagram ever written to s came from the same printed
@@ -267,7 +334,7 @@ Example C03_example_history :
   let b := {| ua_ip := bs "127.0.3.10"; ua_port := 40002; ua_zone := [] |} in
   let h := [EWorkConnReplaced; EUserSend a (bs "one"); EUserSend b (bs "two"); ESrvSend; ESrvSend;
             ECliRecv; ECliRecv; ECliPump true; ECliPump true; EBackendReply 1 (bs "TWO"); EBackendReply 0 (bs "ONE");
-            ECliSend; ECliSend; ESrvRecv; ESrvRecv; ESrvDeliver; ESrvDeliver;
+            ECliSend; ECliSend; ESrvRecv; ESrvRecv; ESrvDeliver true; ESrvDeliver true;
             ESockIdle 0; EBackendReply 0 (bs "late"); EUserSend a (bs "again"); ESrvSend; ECliRecv; ECliPump true;
             EWorkConnReplaced; EBackendReply 2 (bs "lost")] in
   snd (urun c uinit h) =
